@@ -159,13 +159,19 @@ def task_callable(task, info, variant):
         out = info["outputs"][0]
         if info.get("no_suffix"):
             kw, out = {"check_suffix": False}, info["requested_out"]
+        # (the optional arguments of the public calls vary with the variant: every documented
+        # one is legal, the deprecated `force` of compress included)
         if task == "compress":
+            if variant in (0, 3):
+                kw["force"] = True
             cli.compress(path_in=info["inputs"][0], path_out=out, **kw)
         elif task == "repack":
             cli.repack(path_in=info["inputs"][0], path_out=out,
-                       strip_logs=bool(variant % 2), **kw)
+                       strip_logs=bool(variant % 2), strip_basins=bool(variant % 3 == 0), **kw)
         elif task == "condense":
-            cli.condense(path_in=info["inputs"][0], path_out=out, **kw)
+            cli.condense(path_in=info["inputs"][0], path_out=out,
+                         store_ancillary_features=bool(variant % 2 == 0),
+                         store_basin_features=bool(variant % 3 != 0), **kw)
         elif task == "join":
             cli.join(paths_in=list(info["inputs"]), path_out=info["outputs"][0])
         elif task == "split":
